@@ -118,6 +118,48 @@ CHECKS = {
         design_ref="DESIGN.md 4 C15",
         note=NS_NOTE + " Known finding cap_stopped_rerun (known_findings.json). INS criteria are covered in the C03 corpus.",
     ),
+    "C02": dict(
+        category="model_checking",
+        technique="TLA+ spec Integral.tla (the NS quadrature with exact rationals, incremental vs one-pass schedules) "
+                  "checked by TLC; every exported case replayed through _NSIntegralState and compute_weights against a "
+                  "Fraction/mpmath oracle; integrator calls of real runs validated by TLC (TraceIntegral.tla)",
+        text="TLC enumerates all order types (ties, leading -inf), schedules and lengths within the bound and proves "
+             "alignment, strictly decreasing volumes, incremental = one-pass schedule and scale equivariance on the "
+             "exact model; each case is instantiated at 32 float scales/offsets and the real incremental and one-pass "
+             "code must agree with each other and with a 50-digit oracle; long random sequences and real runs on top.",
+        design_ref="DESIGN.md 4 C02",
+        note="Exhaustive only structurally (length <=7/8, nlive <=4/5, 5 symbols); IEEE accuracy is sampled, not proved; "
+             "tolerances are explicit float64 forward-error bounds stated in vf/c02.py.",
+    ),
+    "C11": dict(
+        category="fault_enumeration",
+        technique="TLA+ spec Checkpoint.tla (file-system states, writer statements, kill anywhere, resume protocol with "
+                  "its exception filter) checked by TLC; the recorded real operation sequence of real checkpoints and "
+                  "weights saves is killed at every prefix and torn length, resumed in a fresh process and classified",
+        text="TLC shows that the pickle protocol alone is resumable from every kill point and that the in-place weights "
+             "save is not (design vs code-faithful configuration); the harness interposes on shutil.move/open/"
+             "torch.save, records what a real checkpoint and a real weights save do, and for every prefix (writes torn "
+             "at several lengths) kills a real run there, resumes with FlowSampler(resume=True) and requires: loaded "
+             "state = previous or new checkpoint, weights of a completed save, or a fresh start only if nothing had "
+             "completed; the continued run must complete and satisfy the C01/C05 clauses (trace validation).",
+        design_ref="DESIGN.md 4 C11",
+        note="Standard sampler (save_existing=True is the only mode it uses); process kill, not power loss (rename "
+             "atomic, killed writer leaves a prefix); known findings weights_in_place:* (known_findings.json).",
+    ),
+    "C16": dict(
+        category="model_checking",
+        technique="TLA+ spec Resample.tla (rejection scan and multinomial arguments with the random source as input, ESS as "
+                  "exact rational) checked by TLC; every case replayed through draw_posterior_samples / "
+                  "effective_sample_size with the generator scripted; seeded real-generator calls validated by TLC "
+                  "(TraceResample.tla) and by exact binomial bounds",
+        text="TLC checks the keep rule (max always, zero never, monotone), indices/membership, exact size, p proportional "
+             "to weights and the ESS bounds/scale invariance for all weight vectors up to the bound and all grid "
+             "uniforms; each case is executed on the real functions with numpy's generator replaced by the spec's "
+             "uniforms / a recorder, at several float instantiations.",
+        design_ref="DESIGN.md 4 C16",
+        note="Probability statements are reduced to deterministic rules on the random source (i.i.d. uniforms and a "
+             "correct numpy.random.choice assumed; a seeded frequency test at <1e-9 checks those assumptions).",
+    ),
 }
 
 NOT_YET = {k: 'check not built yet (work in progress; see DESIGN.md 8 for the order of work)' for k in ['C01', 'C02', 'C03', 'C05', 'C09', 'C10', 'C11', 'C12', 'C13', 'C14', 'C15', 'C16', 'C17', 'C18', 'C19', 'C20']}
